@@ -471,6 +471,7 @@ class Traffic:
         shapes = []
         for i, info in enumerate(bind_info):
             if pin_intermediate_writes(info):
+                tensor, rank = info[:2]
                 shape = formats[tensor].tensor.getShape(authoritative=True)
                 assert shape is not None
                 shapes.append(shape[formats[tensor].tensor.getRankIds().index(rank)])
